@@ -160,8 +160,10 @@ def timer_monitor(case, line):
             last = (due, seq)
             lastfire = (i, now)
         elif ev[0] == "e":
-            urep, rep, din, act = [int(x) for x in ev[1:].split(",")]
+            urep, rep, din, act, closing = [int(x) for x in ev[1:].split(",")]
             i, now = lastfire
+            if closing:
+                return "callback of timer %d ran although uv_close() had been called on it" % i
             if urep != rep:
                 return "timer %d: repeat in force is %d but the user set %d" % (i, rep, urep)
             if rep != 0 and act:
